@@ -29,6 +29,7 @@ def run_real(pexpect, case):
     class Fake(SpawnBase):
         def __init__(self, command, timeout=30, maxread=2000, logfile=None, cwd=None, env=None, **kw):
             SpawnBase.__init__(self, timeout=timeout, maxread=maxread, logfile=logfile,
+                               searchwindowsize=kw.get('searchwindowsize'),
                                encoding='latin-1' if case['unicode'] else None)
             self.script = [e if e in ('T', 'E', 'X') else enc(e) for e in case['script']]
             self.consumed = []
@@ -179,6 +180,18 @@ def loops_forever(case):
     return False
 
 
+def _is_literal(r):
+    return r[0] == 'eps' or (r[0] == 'seq' and r[1][0] == 'chr' and _is_literal(r[2]))
+
+
+def _lit_text(r):
+    out = ''
+    while r[0] == 'seq':
+        out += r[1][1]
+        r = r[2]
+    return out
+
+
 def coq_case(case):
     evs = []
     for pat, resp in case['events']:
@@ -209,8 +222,16 @@ def run(ctx):
     nhit = 0
     kinds = {}
     n = 30000 if thorough else 4000
+    big = []
+    for k in (1999, 2000, 2001):
+        # an event pattern straddling two reads of the size of maxread, and one whose match spans more than maxread characters
+        big.append({'unicode': False, 'script': ['x' * k + 'a', 'b' + 'y' * 1999, 'T'], 'as_dict': False, 'withexit': False,
+                    'events': [(('r', H.lit('ab')), ('send', 'ok\n')), ('TIMEOUT', ('cb', ('true',), 'function'))]})
+    big.append({'unicode': False, 'script': ['BEGIN' + 'z' * 2500, 'GO:', 'T'], 'as_dict': False, 'withexit': False,
+                'events': [(('r', ('seq', H.lit('BEGIN'), ('seq', ('star', ('any',)), H.lit('GO:')))), ('send', 'go\n')),
+                           ('TIMEOUT', ('cb', ('true',), 'function'))]})
     for it in range(n):
-        case = gen_case(rng)
+        case = big.pop() if big else gen_case(rng)
         if loops_forever(case):
             continue
         kind, out, sent, box = run_real(pexpect, case)
@@ -225,6 +246,15 @@ def run(ctx):
                 bad = 'run() returned %r but the child wrote %r (still pending: %r)' % (out, consumed, pending)
             if case['withexit'] and (box.get('status') != 7 or not box.get('closed')):
                 bad = 'withexitstatus: returned status %r, child closed=%r' % (box.get('status'), box.get('closed'))
+        if not bad and kind == 'ret':
+            lits = [(p, r) for p, r in case['events'] if isinstance(p, tuple) and r[0] == 'send' and _is_literal(p[1])]
+            others = [p for p, r in case['events'] if isinstance(p, tuple)]
+            senders = [1 for p, r in case['events'] if r[0] == 'send' or (r[0] == 'cb' and r[1][0] == 'str')]
+            if len(lits) == 1 and len(others) == 1 and len(senders) == 1 and _lit_text(lits[0][0][1]):
+                t = enc(_lit_text(lits[0][0][1]))
+                occurrences = consumed.count(t)
+                if occurrences is not None and len(sent) != occurrences:
+                    bad = 'the event pattern %r occurs %d times in the output %r but its response was sent %d times' % (t, occurrences, consumed[:60], len(sent))
         if bad and nhit < 3:
             nhit += 1
             ctx.hit('C12/output', bad, {'case': case, 'output': repr(out), 'sent': repr(sent)})
